@@ -9,7 +9,7 @@ META = {
     "bounds": "(a) wiring: every by-reference and compound-assignment impl found in the MIR (enumerated, all 9 integer types, all operations) must call the "
               "by-value impl exactly once with the dereferenced operands and hand its result back unchanged; (b) differential: for each operation, integer type "
               "(quick: u8, i64, i128; thorough: all 9), position and scale, the integer-operand impl and the Decimal/Decimal impl applied to Decimal::from(i) are "
-              "executed on the same symbolic inputs and every pair of paths must agree (value, scale for +/-, panic/None); all coefficients and integer values",
+              "executed on the same symbolic inputs and every pair of paths must agree (value, scale for +/-, panic/None); all coefficients and integer values; scales: thorough all 19, quick {0,1,2,9,17,18} (div_rounded: n in {0,9,18})",
     "outside_claim": ["opt-level / LLVM", "integer operands i128::MIN for the multiplicative operations (sign normalisation overflows in both forms)"],
     "assumptions": ["builtin models listed in coverage.builtin_models", "contracts for the rounding kernels shared by both sides (obligations C04/C05/C16)"],
 }
@@ -175,10 +175,10 @@ def run_diff(ctx, prog, res, case):
     rty = "Decimal" if pos == "id" else ty
     f_int = get_fn(prog, op, [pre + lty, pre + rty] + extra_p, RET[op])
     f_dec = get_fn(prog, op, [pre + "Decimal", pre + "Decimal"] + extra_p, RET[op])
-    scales = list(range(19)) if pos != "ii" else [0]
+    scales = (list(range(19)) if ctx.tier == "thorough" else [0, 1, 2, 9, 17, 18]) if pos != "ii" else [0]
     nlist = [None]
     if op == "div_rounded":
-        nlist = list(range(19)) if ctx.tier == "thorough" else [0, 1, 9, 18]
+        nlist = list(range(19)) if ctx.tier == "thorough" else [0, 9, 18]
     for p in scales:
         for n in nlist:
             st = State()
@@ -220,7 +220,7 @@ def run_diff(ctx, prog, res, case):
                     name = "diff|%s|%s:%s|p=%d%s|int-path%d(%s) x dec-path%d(%s)" % (op, pos, ty, p, "" if n is None else ",n=%d" % n, ia, sa[0], ib, sb[0])
                     if sa[0] == "fail" or sb[0] == "fail":
                         goal = (sa[0] == sb[0])
-                        if op in ("mul",) and sa[0] == "fail" and sb[0] == "val":
+                        if op in ("mul", "checked_mul") and sa[0] == "fail" and sb[0] == "val":
                             # documented exception: only the Decimal/Decimal form short-cuts a factor equal to one
                             one_x = (T.I(xt) == 10 ** sp)
                             one_y = (T.I(yt) == 10 ** sq)
@@ -312,7 +312,7 @@ def replay(ctx, native, v):
             return ("OK", c, s) if c != 0 else ("OK", 0, 0)
         return o
     same = norm(o1) == norm(o2)
-    if op == "mul" and norm(o1) == ("fail",) and o2[0] == "OK" and (x == 10 ** (p if pos == "di" else 0) or y == 10 ** (p if pos == "id" else 0)):
+    if op in ("mul", "checked_mul") and norm(o1) == ("fail",) and o2[0] == "OK" and (x == 10 ** (p if pos == "di" else 0) or y == 10 ** (p if pos == "id" else 0)):
         same = True
     return {"reproduced": not same, "line": l1 + "  ||  " + l2, "observed": [o1, o2], "expected": "same outcome", "profile": "dev"}
 
